@@ -6,7 +6,7 @@ Import ListNotations.
 From Coq Require Import ZArith.
 From CXV Require Import Gen.TokTy Gen.ParserTables Parse.Balanced Gen.Blocks Parse.BlocksSM.
 From CXV Require Import Base.Regex Base.Cost Gen.LexRules Lex.PlyLoop Gen.StreamTables Stream.TokBuf Fmt.TokFmt PP.Filters Misc.ReprModel Gen.Schema Parse.Fold Parse.Declarator Parse.DeclSpec Parse.EnumList Parse.BaseClause Parse.NsHeader Parse.Specs Parse.VarStmt Parse.FnTail Parse.Init Parse.Members Parse.MethodTail Parse.Template Parse.PQName Parse.Using Parse.EnumDecl Parse.ClassEnum Parse.TemplateArg Parse.CtorDtor Parse.ParamsX Parse.DeclStmt Parse.TemplateStmt Parse.MemberStmt Parse.OpName.
-From CXV Require Parse.DispatchLang Gen.Dispatch Parse.FinishClass Parse.ConvOp Parse.OperatorMember Parse.OperatorFn Parse.MethodImpl Parse.TemplateInst Parse.FriendStmt Parse.Bodies.
+From CXV Require Parse.DispatchLang Gen.Dispatch Parse.FinishClass Parse.ConvOp Parse.OperatorMember Parse.OperatorFn Parse.MethodImpl Parse.TemplateInst Parse.FriendStmt Parse.Bodies Parse.ClassDef.
 From CXV Require Parse.Requires.
 Open Scope N_scope.
 
@@ -1000,8 +1000,48 @@ Definition run_ns_body (args : list N) : list N :=
   | _ => [1; 0]
   end.
 
+(* 121: whole class definitions, nested (Parse/ClassDef.v body): statement budget, declarator budget, in-class flag, class id, '~' id,
+   access in force (token type), the number of (name, '~' name) pairs and the pairs, tokens.  Output: 0, rest length, the anonymous-name
+   counter, item count, items: 0 access citem (as 119) | 1 nitem (as 120) | 2 access key name (forward declaration) |
+   3 access, nine flags, key, name id, anonymous, typedef, final, explicit, base count, bases as 85, member count, members,
+     what follows the brace as 112 (kind, count, entries) *)
+Definition enc_fin (f : FinishClass.fin_result) : list N :=
+  match f with
+  | FinishClass.FinNone => [0; 0]
+  | FinishClass.FinImplicitField => [1; 0]
+  | FinishClass.FinDecls l => 2 :: nlen l :: flat_map enc_entry l
+  | FinishClass.FinMembers l => 3 :: nlen l :: flat_map enc_mentry l
+  end.
+Fixpoint enc_item (it : ClassDef.item) : list N :=
+  match it with
+  | ClassDef.IC acc c => 0 :: acc :: enc_citem c
+  | ClassDef.INs x => 1 :: enc_nitem x
+  | ClassDef.IFwd acc key nm => [2; acc; key; nm]
+  | ClassDef.IClass acc (ClassDef.mkCD m key bn anon td fi ex bs members fin) =>
+      3 :: acc :: enc_mods m ++ key :: bn :: bN anon :: bN td :: bN fi :: bN ex :: nlen bs ::
+        flat_map (fun b => [b_access b; b_name b; bN (b_virtual b); bN (b_pack b)]) bs ++
+        nlen members :: flat_map enc_item members ++ enc_fin fin
+  end.
+Fixpoint dec_pairs (n : nat) (l : list N) : list (N * N) * list N :=
+  match n, l with
+  | S n', a :: b :: r => let '(ps, rest) := dec_pairs n' r in ((a, b) :: ps, rest)
+  | _, _ => ([], l)
+  end.
+Definition run_body (args : list N) : list N :=
+  match args with
+  | k :: n :: ic :: cls :: dcls :: acc :: np :: r =>
+      let '(dt, r') := dec_pairs (N.to_nat np) r in
+      let toks := dec_tks r' in
+      match ClassDef.body (N.to_nat k) (N.to_nat n) (4 * length toks + 8) dt (if ic =? 0 then None else Some (cls, dcls)) acc 0 toks with
+      | DOk (l, aid, rest) => 0 :: nlen rest :: aid :: nlen l :: flat_map enc_item l
+      | DErr e => [1; e]
+      end
+  | _ => [1; 0]
+  end.
+
 Definition run_case (cmd : N) (args : list N) : list N :=
   match cmd, args with
+  | 121, _ => run_body args
   | 120, _ => run_ns_body args
   | 119, _ => run_class_body args
   | 118, _ => run_friend_stmt args
